@@ -815,12 +815,15 @@ def _inline_prebuilt_callables(program, known: Set[str]) -> List[str]:
     for m in program.modules.values():
         cands = {}
         regexes: Dict[str, ast.AST] = {}  # _RX = re.compile("..") used as _RX.match(x): analysed as re.match("..", x)
+        consts: Dict[str, ast.AST] = {}  # _X = <expression over module-level names>: uses analysed as that expression
         counts: Dict[str, int] = {}
         for st in m.tree.body:
             if isinstance(st, ast.Assign):
                 for t in st.targets:
                     if isinstance(t, ast.Name):
                         counts[t.id] = counts.get(t.id, 0) + 1
+            elif isinstance(st, ast.AnnAssign) and isinstance(st.target, ast.Name) and st.value is not None:
+                counts[st.target.id] = counts.get(st.target.id, 0) + 1
         for name, val in m.assigns.items():
             if not _is_private(name) or f"={m.name}.{name}" in known or counts.get(name) != 1:
                 continue
@@ -828,11 +831,22 @@ def _inline_prebuilt_callables(program, known: Set[str]) -> List[str]:
                 cands[name] = val
             elif isinstance(val, ast.Call) and ast.unparse(val.func) == "re.compile" and len(val.args) == 1 and isinstance(val.args[0], ast.Constant) and not val.keywords:
                 regexes[name] = val.args[0]
-        if not cands and not regexes:
+            elif not any(isinstance(x, (ast.Lambda, ast.ListComp, ast.SetComp, ast.DictComp, ast.GeneratorExp, ast.Await, ast.Yield, ast.NamedExpr)) for x in ast.walk(val)) and all(
+                    x.id in m.assigns or x.id in m.imports or x.id in m.classes or x.id in m.functions or x.id in ("True", "False", "None") or x.id in dir(__builtins__) if not isinstance(__builtins__, dict) else True
+                    for x in ast.walk(val) if isinstance(x, ast.Name)):
+                # a value computed once from other module-level names (`_X = CONST.tobytes()`): a name for that expression
+                consts[name] = val
+        if not cands and not regexes and not consts:
             continue
 
         class T(ast.NodeTransformer):
             hits = 0
+
+            def visit_Name(self, node):
+                if isinstance(node.ctx, ast.Load) and node.id in consts:
+                    T.hits += 1
+                    return ast.copy_location(copy.deepcopy(consts[node.id]), node)
+                return node
 
             def visit_Call(self, node):
                 self.generic_visit(node)
@@ -852,12 +866,12 @@ def _inline_prebuilt_callables(program, known: Set[str]) -> List[str]:
         for fi in list(program.functions.values()):
             if fi.module is m and fi.parent is None and not isinstance(fi.node, ast.Lambda):
                 local_stores = {x.id for x in ast.walk(fi.node) if isinstance(x, ast.Name) and isinstance(x.ctx, ast.Store)} | {a.arg for a in ast.walk(fi.node) if isinstance(a, ast.arg)}
-                if local_stores & (set(cands) | set(regexes)):
+                if local_stores & (set(cands) | set(regexes) | set(consts)):
                     continue
                 before = T.hits
                 T().visit(fi.node)
                 if T.hits > before:
-                    log.append(f"{fi.qual}: uses of the module-level callable(s) / compiled pattern(s) {sorted(set(cands) | set(regexes))} analysed as calls of their defining expression")
+                    log.append(f"{fi.qual}: uses of the module-level callable(s) / compiled pattern(s) {sorted(set(cands) | set(regexes) | set(consts))} analysed as their defining expression")
     return log
 
 
